@@ -1159,6 +1159,10 @@ func runAlias(c *Ctx) {
 	// … and no function appends onto a shortened alias of a slice it is still reading (the appends would overwrite the
 	// unread elements)
 	for _, f := range append(append([]*ssa.Function{}, p.ArgFuncs()...), p.GraphFuncs()...) {
+		if lv := loopVarRetained(p, f); lv != "" {
+			c.R.Add("ALIAS", core.FuncName(f)+"|loop-variable-retained", core.FuncName(f), p.Pos(f.Pos()), false,
+				"no address of (or closure over) a variable that is shared by all iterations of a loop is kept beyond the iteration", lv)
+		}
 		if hz := sliceReuseHazard(p, f); hz != "" {
 			c.R.Add("ALIAS", core.FuncName(f)+"|append-onto-shortened-alias", core.FuncName(f), p.Pos(f.Pos()), false,
 				"no function appends onto a shortened re-slice of a slice whose elements it still reads", hz)
